@@ -347,7 +347,10 @@ func TestVerifC06Global(t *testing.T) {
 			cases = append(cases, c)
 		}
 	} else {
-		r := newVRand(seed)
+		z := seed // mixed: the shared vRand gives shifted copies of one stream for consecutive seeds
+		z = (z ^ (z >> 30)) * 0xBF58476D1CE4E5B9
+		z = (z ^ (z >> 27)) * 0x94D049BB133111EB
+		r := newVRand(z ^ (z >> 31) ^ 0x5851F42D4C957F2D)
 		for i := 0; i < n; i++ {
 			cases = append(cases, vC06Gen(r))
 		}
